@@ -54,7 +54,7 @@ def R(n: str) -> dict:
 
 NAMES = ["User", "Pet", "Order", "Item", "Tag", "Group", "Event", "Shape", "Circle", "Square", "Address", "Account",
          "Invoice", "Line", "Owner", "Team"]
-PROPS = ["id", "name", "title", "count", "price", "active", "created_at", "updated", "kind", "note", "score", "email",
+PROPS = ["date", "id", "name", "title", "count", "price", "active", "created_at", "updated", "kind", "note", "score", "email",
          "items", "labels", "meta", "owner", "parent", "children", "tags", "amount"]
 FORMATS = [("string", None), ("string", "date-time"), ("string", "date"), ("string", "uuid"), ("string", "byte"),
            ("integer", None), ("integer", "int64"), ("number", None), ("number", "double"), ("boolean", None),
@@ -125,7 +125,7 @@ class Gen:
         rng = self.rng
         props = {}
         # a property called like its own schema (Owner.owner) makes the generator quote it as a self reference (F01b)
-        pool = [p for p in PROPS if self.hazards or p.lower() != names[i].lower()]
+        pool = list(PROPS)      # includes Owner.owner-like names (F01b shape, fixed) and `date` (F01c shape, fixed)
         for p in rng.sample(pool, rng.randint(1, 6)):
             ps = self.schema_ref_or_inline(names, i)
             if not self.hazards and promotable(ps):
@@ -161,7 +161,7 @@ class Gen:
                 two = rng.sample(later, 2)
                 d: dict[str, Any] = {"oneOf": [R(x) for x in two]}
                 if rng.random() < 0.5:
-                    d["discriminator"] = {"propertyName": "kind", "mapping": {x.lower(): "#/components/schemas/" + x for x in two}}
+                    d["discriminator"] = {"propertyName": "disc", "mapping": {x.lower(): "#/components/schemas/" + x for x in two}}
                 out[n] = d
             elif r < 0.90 and later:
                 out[n] = {"type": "array", "items": R(rng.choice(later))}
@@ -236,7 +236,7 @@ class Gen:
         else:
             resp[rng.choice(["200", "200", "201"])] = {"description": "ok", "content": J(self.body_or_resp_schema(names))}
         streaming = any(is_streaming(ct, mt) for v in resp.values() for ct, mt in v.get("content", {}).items())
-        if rng.random() < 0.3 and (self.hazards or not streaming):   # streaming + a second 2xx body: F01g
+        if rng.random() < 0.3:   # also for streaming operations (F01g shape, fixed)
             resp["201" if "201" not in resp else "202"] = {"description": "alt", "content": J(self.body_or_resp_schema(names))}
         for code in rng.sample(["400", "401", "403", "404", "409", "422", "429", "500", "503"], rng.randint(0, 3)):
             resp[code] = {"description": "err"} if rng.random() < 0.6 or (streaming and not self.hazards) else {"description": "err", "content": J(self.body_or_resp_schema(names))}
@@ -410,6 +410,21 @@ def guard_inline_name_collision(doc: dict, layout: tuple) -> bool:
     return len(names) != len(set(names)) or any(norm(p) in declared for p in names)
 
 
+def guard_discriminator_ref_property(doc: dict, layout: tuple) -> bool:
+    """F01j: a discriminated union one of whose variants declares the discriminator property as a $ref"""
+    sch = (doc.get("components") or {}).get("schemas") or {}
+    for s in sch.values():
+        disc = s.get("discriminator") if isinstance(s, dict) else None
+        if not isinstance(disc, dict):
+            continue
+        for v in (s.get("oneOf") or []) + (s.get("anyOf") or []):
+            tgt = sch.get(v.get("$ref", "").rsplit("/", 1)[-1]) if isinstance(v, dict) else None
+            ps = ((tgt or {}).get("properties") or {}).get(disc.get("propertyName"))
+            if isinstance(ps, dict) and "$ref" in ps:
+                return True
+    return False
+
+
 STREAMING = ("application/octet-stream", "text/event-stream", "application/x-ndjson")
 
 
@@ -515,18 +530,15 @@ def guard_repair_layout(doc: dict, layout: tuple) -> bool:   # F01f: add_import'
 #                executable guard on (document, layout))
 # conjunct indices (Coq bit = index+1): 0 c_parses, 1 c_closed, 2 c_acyclic, 3 c_no_str_or, 4 c_no_shadow,
 #                                       5 c_no_ancestor_names, 6 c_paths, 7 c_static
+# fixed in /repo (their corpus witnesses stay and must now import cleanly): F01e 0981866, F20a 4164990;
+# fix wave (fixes/*.diff): F01b, F01c, F01f, F01g
 FINDINGS: dict[str, tuple] = {
     "F01a": (lambda c, m, f: c == "ImportError" and "partially initialized module" in m and "/models/" in m, 2, guard_ref_cycle),
-    "F01b": (lambda c, m, f: c == "TypeError" and "unsupported operand type(s) for |: 'str' and 'NoneType'" in m, 3, guard_direct_self_ref),
-    "F01c": (lambda c, m, f: c == "TypeError" and "unsupported operand type(s) for |: 'NoneType' and 'NoneType'" in m, 4, guard_shadowing_property),
-    "F01e": (lambda c, m, f: c == "IndentationError" and f.endswith("mocks/mock_client.py"), 0, guard_no_ops),
     "F06d": (lambda c, m, f: c == "ImportError" and re.search(r"cannot import name 'Error[13]\d\d' from '[\w.]*core'", m) is not None, 7, guard_non_error_status),
     "F13b": (lambda c, m, f: c == "SyntaxError" and "duplicate argument" in m and f.endswith("mocks/mock_client.py"), 0, guard_case_variant_tags),
-    "F20a": (lambda c, m, f: c == "SyntaxError" and "invalid syntax" in m, 0, guard_keyword_schema_name),
     "F04c": (lambda c, m, f: c == "SyntaxError" and "duplicate argument" in m and "/endpoints/" in f, 0, guard_duplicate_param),
-    "F01f": (lambda c, m, f: c == "ModuleNotFoundError" and "No module named" in m and "/models/" not in f, 1, guard_repair_layout),
-    "F01g": (lambda c, m, f: c == "SyntaxError" and "'return' with value in async generator" in m and "endpoints/" in f, 0, guard_stream_plus_body),
     "F01i": (lambda c, m, f: c == "ImportError" and "partially initialized module" in m and "/models/" in m, 2, guard_inline_name_collision),
+    "F01j": (lambda c, m, f: c == "ModuleNotFoundError" and re.search(r"No module named '[\w.]*\.models\.\w+'", m) is not None and "/models/" in f, 1, guard_discriminator_ref_property),
     "F01h": (lambda c, m, f: c == "ModuleNotFoundError" and re.search(r"No module named '[\w.]*\.models\.\w+'", m) is not None and "/models/" in f, 1, guard_any_cycle),
 }
 FID_BIT = {fid: i + 1 for i, fid in enumerate(FINDINGS)}   # bit in the code handed to chk.decide
